@@ -1,6 +1,7 @@
 /- C10 line-protocol driver: `lake env lean --run Verif/C10/Driver.lean` -/
 import Verif.Common.Proto
 import Verif.C10.Model
+import Verif.C10.Mapper
 open Lean Verif.Proto Verif.C10 Verif.Py
 
 namespace Verif.C10.Driver
@@ -11,6 +12,8 @@ def errTag : Err → String
   | .valueError => "ValueError"
   | .notImplemented => "NotImplementedError"
   | .keyError => "KeyError"
+  | .assertionError => "AssertionError"
+  | .unmodelled => "unmodelled"
 
 def jRow (r : Row) : Json := jList jNat r
 def jRows (rs : List Row) : Json := jList jRow rs
@@ -52,8 +55,34 @@ def ofProduced (j : Json) : Except String (List (Nat × Row)) := do
     | [k, r] => pure (← k.getNat?, ← ofRow r)
     | _ => throw "bad produced")
 
+def ofDict (j : Json) : Except String Dict := do
+  (← j.getArr?).toList.mapM (fun p => do
+    match (← p.getArr?).toList with
+    | [k, v] => pure (← k.getStr?, ← v.getNat?)
+    | _ => throw "bad dict entry")
+
+def ofResp (j : Json) : Except String Resp := do
+  let top ← ofDict (← j.getObjVal? "top")
+  let results ← match j.getObjVal? "results" with
+    | .ok (Json.null) => pure none
+    | .ok v => do pure (some (← (← v.getArr?).toList.mapM ofDict))
+    | .error _ => pure none
+  let run ← match j.getObjVal? "run" with
+    | .ok (Json.null) => pure none
+    | .ok v => do pure (some (← ofDict v))
+    | .error _ => pure none
+  let chart ← (← getArr j "chart").mapM ofDict
+  pure { top, results, run, chart }
+
+def ofSchema (j : Json) : Except String Schema := do
+  (← j.getArr?).toList.mapM (fun t => do
+    let name ← getStr t "name"
+    let fields ← (← getArr t "fields").mapM (fun f => do
+      pure ({ name := ← getStr f "name", isInt := ← getBool f "int", isKey := ← getBool f "key" } : FieldS))
+    pure ({ name, fields } : TableS))
+
 /-- one step of a history on the suite -/
-def doStep (s : Suite) (j : Json) : Except String (Suite × Option Err) := do
+def doStep (sch : Schema) (s : Suite) (j : Json) : Except String (Suite × Option Err) := do
   let k ← getStr j "k"
   match k with
   | "commit" => pure (commitAll s)
@@ -62,9 +91,8 @@ def doStep (s : Suite) (j : Json) : Except String (Suite × Option Err) := do
   | "process" =>
     let b ← getInt j "b"
     let g ← getBool j "gz"
-    let aff ← (← getArr j "affected").mapM (·.getNat?)
-    let prod ← ofProduced (← j.getObjVal? "produced")
-    pure (process s b g aff prod)
+    let script ← (← getArr j "script").mapM ofResp
+    pure (processM sch s b g script)
   | _ =>
     let ti ← getNat j "t"
     let op : Op ← match k with
@@ -114,20 +142,37 @@ def getNats (j : Json) (k : String) : List Nat :=
   | .ok l => l.filterMap (fun x => match x.getNat? with | .ok n => some n | .error _ => none)
   | .error _ => []
 
-def runSteps : Suite → List Json → Except String (List Json)
+/-- what the harness's `callback` records at every item: shown rows, stored rows, pending flag of
+every table -/
+def obsPhase (s : Suite) : Json :=
+  jList (fun t => Json.mkObj [("it", jRows (abs t)), ("f", jRows t.file), ("tx", Json.bool (inTransaction t))]) s
+
+def phasesOf (sch : Schema) (s : Suite) (j : Json) : Except String Json := do
+  match getStr j "k" with
+  | .ok "process" =>
+    let b ← getInt j "b"
+    let script ← (← getArr j "script").mapM ofResp
+    pure (jList obsPhase (processPhases sch s b script))
+  | _ => pure Json.null
+
+def runSteps (sch : Schema) : Suite → List Json → Except String (List Json)
   | _, [] => pure []
   | s, j :: js => do
-    let (s', e) ← doStep s j
+    let (s', e) ← doStep sch s j
     let qs := match getArr j "qs" with | .ok l => l | .error _ => []
     let o ← obs s' e (getNats j "ot") qs
-    let rest ← runSteps s' js
+    let ph ← phasesOf sch s j
+    let o := o.setObjVal! "P" ph
+    let rest ← runSteps sch s' js
     pure (o :: rest)
 
 def handle (j : Json) : Except String Json := do
   let tables ← (← getArr j "tables").mapM ofTable
+  let sch ← ofSchema (← j.getObjVal? "schema")
   let steps ← getArr j "steps"
   let init ← obs tables none (List.range tables.length) []
-  let rest ← runSteps tables steps
+  let init := init.setObjVal! "P" Json.null
+  let rest ← runSteps sch tables steps
   pure (Json.arr (init :: rest).toArray)
 
 end Verif.C10.Driver
